@@ -278,6 +278,9 @@ func runC01(c *explore.Ctx) {
 			for _, m := range []uint32{1025, 1024, 1, 3} {
 				my := ei
 				ei++
+				if e.Heavy && m != 1025 {
+					continue
+				}
 				if c.MineIdx("EXTREME", my) && !c.Expired() {
 					checkBuiltLarge(c, "EXTREME", my, e.Batch, m, fmt.Sprintf("EXTREME %s %s", e.Name, modeStr(m)))
 				}
